@@ -590,6 +590,92 @@ func c5Substitution(p *Prog, r *Report) {
 		})
 	}
 	r.Check(nApp == 1, rule, "batch.cloneSub:set-rebuild", p.pos(fn.Pos()), "one rebuild site for sets", "expected exactly one set rebuild in cloneSub, found "+itoa(nApp))
+	// unchanged verdict: inside a container case, "unchanged" (false) is returned only under the zero test of a cell that a
+	// full iteration over the container sets whenever the recursive substitution of a member reports a change
+	nUnch := 0
+	for _, b := range fn.Blocks {
+		ret, ok := lastInstr(b).(*ssa.Return)
+		if !ok || len(ret.Results) != 2 {
+			continue
+		}
+		if ch, isC := constBool(retVal(ret, 1)); !isC || ch {
+			continue
+		}
+		var caseVal ssa.Value
+		kind := ""
+		var cells []*ssa.Alloc
+		for _, g := range guardsAt(b) {
+			fg := flattenGuard(g)
+			if ex, ok := fg.Cond.(*ssa.Extract); ok && fg.Pol && ex.Index == 1 {
+				if ta, ok := ex.Tuple.(*ssa.TypeAssert); ok && (typeIs(ta.AssertedType, pTypes, "Record") || typeIs(ta.AssertedType, pTypes, "Set")) {
+					caseVal = extractOf(ta, 0)
+					kind = valueKindName(ta.AssertedType)
+				}
+			}
+			// !flag  or  m == nil
+			if ld, ok := fg.Cond.(*ssa.UnOp); ok && ld.Op == token.MUL && !fg.Pol {
+				if a, ok := ld.X.(*ssa.Alloc); ok {
+					cells = append(cells, a)
+				}
+			}
+			if bo, ok := fg.Cond.(*ssa.BinOp); ok && ((bo.Op == token.EQL && fg.Pol) || (bo.Op == token.NEQ && !fg.Pol)) {
+				for _, side := range []ssa.Value{bo.X, bo.Y} {
+					if ld, ok := side.(*ssa.UnOp); ok && ld.Op == token.MUL {
+						if a, ok := ld.X.(*ssa.Alloc); ok {
+							cells = append(cells, a)
+						}
+					}
+				}
+			}
+		}
+		if kind == "" {
+			continue
+		}
+		nUnch++
+		good := false
+		why := "no test of a change flag guards this return"
+		for _, cell := range cells {
+			// every non-zero store to the cell happens in the yield closure of a range over the container, under the
+			// changed flag of a recursive call on the yielded member, which runs on every iteration
+			okCell, nStores := true, 0
+			for _, f := range withAnon(fn) {
+				forEachInstr(f, func(in ssa.Instruction) {
+					st, ok := in.(*ssa.Store)
+					if !ok || originCell(st.Addr) != cell {
+						return
+					}
+					if isZeroConst(st.Val) {
+						return
+					}
+					nStores++
+					if !isRangeFuncYield(f) || !rangesOver(f, caseVal) {
+						okCell = false
+						why = "the change flag is set outside a loop over the container's members (" + p.pos(st.Pos()) + ")"
+						return
+					}
+					under := false
+					for _, g := range guardsAt(st.Block()) {
+						fg := flattenGuard(g)
+						if ex, ok := fg.Cond.(*ssa.Extract); ok && fg.Pol && ex.Index == 1 {
+							if c, ok := ex.Tuple.(*ssa.Call); ok && c.Call.StaticCallee() == fn && unconditionalInYield(c.Block()) && len(f.Params) > 0 && originParam(c.Call.Args[0]) == f.Params[len(f.Params)-1] {
+								under = true
+							}
+						}
+					}
+					if !under {
+						okCell = false
+						why = "the change flag is not set from the recursive substitution of each member (" + p.pos(st.Pos()) + ")"
+					}
+				})
+			}
+			if okCell && nStores > 0 {
+				good = true
+			}
+		}
+		r.Check(good, rule, "batch.cloneSub:unchanged:"+kind, p.pos(ret.Pos()), "`unchanged` is reported for a "+kind+" only after every member's recursive substitution reported no change",
+			"cloneSub reports a "+kind+" as unchanged without having asked the recursive substitution about every member ("+why+"): a variable nested deeper inside a member would be left as a placeholder")
+	}
+	r.Check(nUnch >= 2, rule, "batch.cloneSub:unchanged-sites", p.pos(fn.Pos()), "unchanged verdicts for records and sets located", "expected an `unchanged` return in both the record and the set case, found "+itoa(nUnch))
 	// entity case: returns the value exactly when the marker's key equals k
 	entOK := false
 	for _, b := range fn.Blocks {
@@ -892,4 +978,77 @@ func c5Discovery(p *Prog, r *Report, auth *ssa.Function) {
 		}
 	})
 	r.Check(len(bad) == 0 && nEnv == 4, rule, "batch.Authorize:env", p.pos(auth.Pos()), "the environment's parts come from the same-named request parts", "environment parts are not initialised from the same-named request parts: "+strings.Join(bad, ",")+" ("+itoa(nEnv)+" assignments)")
+}
+
+// isZeroConst reports a nil/false/zero constant.
+func isZeroConst(v ssa.Value) bool {
+	c, ok := v.(*ssa.Const)
+	if !ok {
+		return false
+	}
+	if c.Value == nil {
+		return true
+	}
+	if b, ok := constBool(c); ok {
+		return !b
+	}
+	if n, ok := constInt(c); ok {
+		return n == 0
+	}
+	return false
+}
+
+// rangesOver reports whether yield closure f is the body of a range-over-func loop over an iterator obtained from a
+// method of container (container.All(), container.Values(), ...).
+func rangesOver(f *ssa.Function, container ssa.Value) bool {
+	mc := makeClosureOf(f)
+	if mc == nil || container == nil {
+		return false
+	}
+	for _, ref := range *mc.Referrers() {
+		c, ok := ref.(*ssa.Call)
+		if !ok || c.Call.IsInvoke() {
+			continue
+		}
+		seq, ok := c.Call.Value.(*ssa.Call)
+		if !ok || seq.Call.StaticCallee() == nil || len(seq.Call.Args) == 0 {
+			continue
+		}
+		recv := stripConv(seq.Call.Args[0])
+		if recv == container {
+			return true
+		}
+		// the case variable spilled to a local that is assigned once
+		if ld, ok := recv.(*ssa.UnOp); ok && ld.Op == token.MUL {
+			if a, ok := ld.X.(*ssa.Alloc); ok {
+				n, same := 0, true
+				for _, f2 := range withAnon(a.Parent()) {
+					forEachInstr(f2, func(in ssa.Instruction) {
+						if st, ok := in.(*ssa.Store); ok && originCell(st.Addr) == a {
+							n++
+							if stripConv(st.Val) != container {
+								same = false
+							}
+						}
+					})
+				}
+				if n == 1 && same {
+					return true
+				}
+			}
+		}
+	}
+	return false
+}
+
+// unconditionalInYield reports whether block b of a range-over-func body runs on every iteration: its only guard is the
+// synthetic re-entry check in the entry block.
+func unconditionalInYield(b *ssa.BasicBlock) bool {
+	f := b.Parent()
+	for _, g := range guardsAt(b) {
+		if g.If.Block() != f.Blocks[0] {
+			return false
+		}
+	}
+	return true
 }
